@@ -12,7 +12,7 @@ import glob, os, importlib.util
 
 PROPS = {}
 _d = os.path.join(os.path.dirname(os.path.abspath(__file__)), 'props')
-for _f in sorted(glob.glob(os.path.join(_d, 'C*.py'))):
+for _f in sorted(glob.glob(os.path.join(_d, '[A-Z]*.py'))):
     _n = os.path.basename(_f)[:-3]
     _s = importlib.util.spec_from_file_location('props_' + _n, _f)
     _m = importlib.util.module_from_spec(_s)
